@@ -52,7 +52,7 @@ def gen(run):
                 nm = (fn[:-1] if len(fn) > 1 else fn) + b'.' + ts()
             if not nm or nm in (b'.', b'..') or b'/' in nm or b'\x00' in nm or len(nm) > 200:
                 continue
-            kind = 0 if rng.random() < 0.8 else rng.choice([1, 2, 3])
+            kind = 0 if rng.random() < 0.8 else rng.choice([1, 2, 3, 4, 4])
             ents[nm] = (kind, off())
         if rng.random() < 0.3:   # the file currently being written: own name, fresh mtime
             ents[fn + b'.' + ts()] = (0, rng.choice([0, -1, -1800]))
@@ -139,7 +139,7 @@ def check(run):
             return 'harness error'
         mo, io = common.read_lines_keep(tmp + '/m'), common.read_lines_keep(tmp + '/i')
         common.compare_stage(run, 'c14/survivors', cases, mo, io, nontrivial_fn=nontrivial,
-                             rule='directory populations (own / sibling / prefix-sharing / unrelated names, files, dirs, symlinks, mtimes on both sides of the cut-off, maxAge 1..720 and, in every twelfth case, up to 2^31-1 h across the point (2562047 h) where hours stop fitting a time.Duration); a third of the cases are histories of 2-4 passes of ONE appender with files re-timed / written again / created between the passes, some with real waits so that the age of a file crosses the cut-off between two passes; observable = sorted survivors; non-trivial = at least one entry deleted and one kept')
+                             rule='directory populations (own / sibling / prefix-sharing / unrelated names, files, dirs, symlinks to fresh and to old files elsewhere, mtimes on both sides of the cut-off, maxAge 1..720 and, in every twelfth case, up to 2^31-1 h across the point (2562047 h) where hours stop fitting a time.Duration); a third of the cases are histories of 2-4 passes of ONE appender with files re-timed / written again / created between the passes, some with real waits so that the age of a file crosses the cut-off between two passes; observable = sorted survivors; non-trivial = at least one entry deleted and one kept')
         # the same scan in processes whose time zone changed its UTC offset recently (daylight saving): maximum ages reaching back across the change,
         # files within the hour around the cut-off. Ages are elapsed hours, whatever the wall clock did.
         zones = recent_offset_changes()
